@@ -23,7 +23,7 @@ def teardown(_):
 
 
 def gen(rng, tier):
-    n = 70 if tier == "quick" else 2500
+    n = 70 if tier == "quick" else 900
     for t in range(n):
         c = gtio.gen_content(rng, maxs=4, maxv=6, allow_half_missing=False, multibase_ref=(t % 6 == 5), min_v=1)
         contigs = sorted({v["chrom"] for v in c["variants"]})
@@ -244,7 +244,7 @@ def describe(case, obs):
 
 # ------------------------------------------------------------------ subset of a loaded object
 def gen_subset(rng, tier):
-    for _ in range(150 if tier == "quick" else 5000):
+    for _ in range(150 if tier == "quick" else 3000):
         c = gtio.gen_content(rng, maxs=4, maxv=5, min_v=1)
         c["rs"] = rng.choice([None, rng.sample(c["samples"] + ["zz"], rng.randint(1, len(c["samples"]) + 1))])
         c["cs"] = rng.choice([None, rng.sample([v["id"] for v in c["variants"]] + ["nosuch"], rng.randint(1, len(c["variants"]) + 1))])
